@@ -307,7 +307,7 @@ class Wav(AbstractWav):
 
     def _getIndexAtTime(self, startTime: float) -> int:
         """Gets the index in the frame list for the given time"""
-        return round(startTime * self.frameRate * self.sampleWidth)
+        return round(startTime * self.frameRate) * self.sampleWidth
 
     @classmethod
     def open(cls, fn: str) -> "Wav":
